@@ -1,6 +1,7 @@
 //! Oracles driven by user operations (C09 step invariant, C16 fetch automaton, C02 get_header).
 
 use ckb_types::packed;
+use ckb_types::prelude::{Entity, Reader};
 use serde_json::Value;
 
 use crate::oracle::Checker;
@@ -318,3 +319,85 @@ pub fn c16_on_get_tx(ck: &mut Checker, sim: &mut Sim, h: &packed::Byte32, r: Opt
     }
 }
 pub fn c02_on_get_header(_ck: &mut Checker, _sim: &mut Sim, _h: &packed::Byte32, _r: Option<Result<Value, Value>>) {}
+
+/// State of the filter sync as seen right before a BlockFilters message is handled.
+#[derive(Default)]
+pub struct C09FiltersState {
+    /// (start number of the message, filtered number, earliest stored record (start, count),
+    /// block number of every registered script)
+    pub before: Option<(u64, u64, Option<(u64, u64)>, Vec<(Vec<u8>, u64)>)>,
+}
+
+fn script_numbers(c: &crate::client::Client) -> Vec<(Vec<u8>, u64)> {
+    let mut v: Vec<(Vec<u8>, u64)> = c
+        .storage
+        .get_filter_scripts()
+        .into_iter()
+        .map(|s| {
+            let mut key = s.script.as_slice().to_vec();
+            key.push(matches!(s.script_type, crate::storage::ScriptType::Lock) as u8);
+            (key, s.block_number)
+        })
+        .collect();
+    v.sort();
+    v
+}
+
+pub fn c09_filters_before(ck: &mut Checker, sim: &mut Sim, proto: crate::client::Proto, data: &ckb_network::bytes::Bytes) {
+    ck.c09f.before = None;
+    if proto != crate::client::Proto::Filter {
+        return;
+    }
+    let c = match sim.client.as_ref() {
+        Some(c) => c,
+        None => return,
+    };
+    if let Ok(m) = packed::BlockFilterMessageReader::from_slice(data) {
+        if let packed::BlockFilterMessageUnionReader::BlockFilters(r) = m.to_enum() {
+            let start: u64 = ckb_types::prelude::Unpack::unpack(&r.start_number());
+            let rec = c.storage.get_earliest_matched_blocks().map(|(s, n, _)| (s, n));
+            ck.c09f.before = Some((start, c.storage.get_min_filtered_block_number(), rec, script_numbers(c)));
+        }
+    }
+}
+
+/// A BlockFilters message that does not continue at the filtered number (a late or duplicated
+/// answer) carries nothing the client checks: it must not raise a script's block number over the
+/// blocks of a matched-blocks record that is still waiting to be downloaded and indexed.
+pub fn c09_filters_after(ck: &mut Checker, sim: &mut Sim) {
+    let (start, mf, rec, numbers) = match ck.c09f.before.take() {
+        Some(b) => b,
+        None => return,
+    };
+    let (rec_start, _) = match rec {
+        Some(r) => r,
+        None => return,
+    };
+    if start == mf + 1 {
+        return;
+    }
+    let c = match sim.client.as_ref() {
+        Some(c) => c,
+        None => return,
+    };
+    let still = c.storage.get_earliest_matched_blocks().map(|(s, _, _)| s) == Some(rec_start);
+    if !still {
+        return;
+    }
+    let after = script_numbers(c);
+    let raised: Vec<(u64, u64)> = numbers
+        .iter()
+        .filter_map(|(k, n)| after.iter().find(|(k2, _)| k2 == k).map(|(_, n2)| (*n, *n2)))
+        .filter(|(n, n2)| n2 > n && *n2 >= rec_start && *n < rec_start)
+        .collect();
+    if !raised.is_empty() {
+        sim.violate(
+            "C09",
+            "script_raised_over_a_pending_record_by_a_filters_message_that_does_not_continue",
+            format!(
+                "BlockFilters starting at {} while the filtered number is {} (not a continuation) raised script block numbers {:?} although the matched-blocks record starting at {} is still pending: its blocks are reported as examined but were never indexed",
+                start, mf, raised, rec_start
+            ),
+        );
+    }
+}
